@@ -60,4 +60,17 @@ theorem handleSkip_resp (cfg : Cfg) (sgen : Nat → Bytes) (st : St) (q : Req) :
     (handleSkip cfg sgen st q).2.pass = true ∧ (handleSkip cfg sgen st q).2.ck = none ∧
     (handleSkip cfg sgen st q).2.status = 200 := ⟨rfl, rfl, rfl⟩
 
+
+/-- with the gate shut an unsafe request is turned away at once, whatever the state (token store,
+    sessions, clock, earlier requests) -/
+theorem handleCore_gate_shut (cfg : Cfg) (gen sgen : Nat → Bytes) (st : St) (q : Req)
+    (hu : isSafe q.method = false) (hg : originGate cfg q = false) :
+    (handleCore cfg gen sgen st q).2.pass = false ∧ (handleCore cfg gen sgen st q).2.status = cfg.eh (gateErr cfg q) ∧
+    (handleCore cfg gen sgen st q).2.ck = none := by
+  have hd : decide' cfg sgen q (ctx0 cfg sgen st q) = (ctx0 cfg sgen st q, .reject false (gateErr cfg q)) := by
+    unfold decide'
+    simp [hu, hg]
+  rw [handle_reject cfg gen sgen st q _ false _ hd]
+  exact ⟨rfl, rfl, rfl⟩
+
 end C16
